@@ -192,7 +192,10 @@ def o_list(ctx, case):
     pts = [B.g1_mul(B.G1, k) for k in sks]
     common = b"c04-list-%d" % (a % 3)
     msgs = [b"c04-list-%d-%d" % (a % 3, j) for j in range(n)]
-    T = bc.torsion_point("G1", a % 50) if a % 2 else bc.small_point("G1", 11, 1 + a % 3)
+    # the torsion component: full cofactor component, or of order 11 or 3 (the smaller the order, the likelier a
+    # randomised or batched subgroup test lets it through: 1 in 3 for order 3)
+    T = [BLS.mul("G1", bc.small_point("G1", 3, 1), 2), bc.torsion_point("G1", a % 50),
+         bc.small_point("G1", 11, 1 + a % 3), bc.small_point("G1", 3, 1)][a % 4]
     keys = list(pts)
     extra_msgs = []
     if mut == "valid_zero_sum":
@@ -426,7 +429,13 @@ def t_lists(ctx, shard, n):
     ex = [{"suite": sc.SUITES[(i + shard) % 3], "mut": m, "n": 2 + i % 2, "a": 3 * i + shard} for i, m in enumerate(LIST_MUTS)]
     ex += [{"suite": "pop", "mut": m, "n": 2, "a": 5 + shard} for m in ("cancel_pair", "cancel_triple", "small_order_pair",
                                                                         "valid_zero_sum")]
-    drive(ctx, f"lists{shard}", strat, lambda c: o_list(ctx, c), n, ex if shard < 3 else (), shrink=False)
+    if shard >= 3:
+        ex = []
+    # an honest key plus a point of order 3, NOT in first position, with the honest aggregate, in the suites where the
+    # pairing equation then still holds: distinct lists, because a randomised check errs on a fraction of them only
+    ex += [{"suite": "basic", "mut": "plus_torsion", "n": 2 + (j % 2) * 2, "a": 4 * j + 3}
+           for j in range(12) if j % 4 == shard % 4 and (4 * j + 3) % (2 + (j % 2) * 2) != 0]
+    drive(ctx, f"lists{shard}", strat, lambda c: o_list(ctx, c), n, ex, shrink=False)
 
 
 def t_lengths(ctx, suite):
